@@ -11,8 +11,10 @@ import Mathlib.Tactic.Linarith
 import Mathlib.Tactic.NormNum
 import Mathlib.Tactic.LinearCombination
 import PP.Model.Mont
+import PP.Proofs.Limbs
 
 namespace PP.Mont
+open PP.Limbs
 
 /-- Well-formedness of a parameter set: what the derive macro guarantees about its constants. -/
 structure Params.WF (P : Params) : Prop where
@@ -52,49 +54,6 @@ def dec (P : Params) (a : Nat) : Nat := a * Winv P % P.p
 
 /-- Encoding: `x·W mod p`. -/
 def enc (P : Params) (x : Nat) : Nat := x * P.W % P.p
-
-/-! ### bits (to be moved to Limbs.lean) -/
-
-/-- value of a bit list read most-significant-first, continuing from the accumulator `e` -/
-def bitsVal (e : ℕ) (bs : List Bool) : ℕ := bs.foldl (fun acc b => 2 * acc + b.toNat) e
-
-theorem bitsVal_append (e : ℕ) (as bs : List Bool) :
-    bitsVal e (as ++ bs) = bitsVal (bitsVal e as) bs := by
-  simp [bitsVal, List.foldl_append]
-
-theorem bitsVal_wordBitsMSB (w : ℕ) : ∀ (n e : ℕ),
-    bitsVal e (wordBitsMSB w n) = e * 2 ^ n + w % 2 ^ n := by
-  intro n
-  induction n with
-  | zero => intro e; simp [wordBitsMSB, bitsVal, Nat.mod_one]
-  | succ n ih =>
-    intro e
-    have : bitsVal e (wordBitsMSB w (n + 1)) = bitsVal (2 * e + (w.testBit n).toNat) (wordBitsMSB w n) := by
-      simp [wordBitsMSB, bitsVal]
-    rw [this, ih, Nat.mod_pow_succ, Nat.toNat_testBit]; ring
-
-/-- the bit iterator reads the binary expansion of the limbs (each taken mod `2^64`) -/
-theorem bitsVal_bitsMSB (ls : List ℕ) : ∀ e : ℕ,
-    bitsVal e (bitsMSB ls) = e * 2 ^ (64 * ls.length) + limbsToNat (ls.map (· % 2 ^ 64)) := by
-  induction ls with
-  | nil => intro e; simp [bitsMSB, bitsVal, limbsToNat]
-  | cons l ls ih =>
-    intro e
-    rw [bitsMSB, bitsVal_append, ih, bitsVal_wordBitsMSB]
-    simp only [List.length_cons, List.map_cons, limbsToNat]
-    have : 2 ^ (64 * (ls.length + 1)) = 2 ^ (64 * ls.length) * 2 ^ 64 := by rw [← pow_add]; ring_nf
-    rw [this]; ring
-
-theorem map_mod_of_ok (ls : List ℕ) (hok : ∀ l ∈ ls, l < 2 ^ 64) : ls.map (· % 2 ^ 64) = ls := by
-  induction ls with
-  | nil => rfl
-  | cons l ls ih =>
-    simp only [List.map_cons]
-    rw [Nat.mod_eq_of_lt (hok l (by simp)), ih (fun x hx => hok x (by simp [hx]))]
-
-theorem bitsVal_bitsMSB_ok (ls : List ℕ) (hok : ∀ l ∈ ls, l < 2 ^ 64) :
-    bitsVal 0 (bitsMSB ls) = limbsToNat ls := by
-  rw [bitsVal_bitsMSB, map_mod_of_ok ls hok]; simp
 
 section generic
 variable {P : Params}
